@@ -200,6 +200,21 @@ Definition mpi_cosh_sinh_from (x : mpi) (va vb : mpf) (prec : Z) : res (mpi * mp
   do e2 <- mpi_div mpi_one e1 wp;
   Ok (mpi_shift (mpi_add e1 e2 prec) (-1), mpi_shift (mpi_sub e1 e2 prec) (-1)).
 
+(* mpi_atan2(y, x, prec): the end points are mpf_atan2 (not modelled) at two corners of the rectangle, chosen by sign tests;
+   the plan says which (corners are (y, x) argument pairs; lower end point first) *)
+Inductive at2 := AtZero | AtPi | AtZeroPi | AtCorners (ca cb : mpf * mpf) | AtOrigin.
+Definition mpi_atan2_plan (y x : mpi) : at2 :=
+  let '(ya, yb) := y in let '(xa, xb) := x in
+  if mpf_eqb ya fzero && mpf_eqb yb fzero then
+    (if mpf_ge xa fzero then AtZero else if mpf_lt xb fzero then AtPi else AtZeroPi) else
+  if mpf_ge xa fzero then
+    AtCorners (if mpf_ge ya fzero then (ya, xb) else (ya, xa)) (if mpf_ge yb fzero then (yb, xa) else (yb, xb))
+  else if mpf_ge ya fzero then
+    AtCorners (if mpf_le xb fzero then (yb, xb) else (ya, xb)) (ya, xa)
+  else if mpf_lt yb fzero then
+    AtCorners (yb, xa) (if mpf_le xb fzero then (ya, xb) else (yb, xb))
+  else AtOrigin.
+
 (* ---- complex intervals ---- *)
 Definition mpci := (mpi * mpi)%type.
 Definition mpci_add (x y : mpci) (prec : Z) : mpci := (mpi_add (fst x) (fst y) prec, mpi_add (snd x) (snd y) prec).
